@@ -333,6 +333,20 @@ func (e *Engine) RunProperty(id, tier string, seed, timeout int) *CheckRun {
 			byName[n].Instances++
 		}
 	}
+	// one pseudo-obligation per function: "the function could be analysed" (no tool failure). It is in
+	// the baseline like any other; a function of the unchanged tree's closure that can no longer be
+	// analysed (unmodelled library call, unsupported construct, budget) leaves its safety and frame
+	// obligations unestablished and is reported, not silently skipped.
+	for _, rep := range run.Reports {
+		n := rep.Fn + "#analysed"
+		r := &OblResult{Name: n, Func: rep.Fn, Kind: "tool", Status: "discharged", Solvers: []string{"engine"}, Instances: 1}
+		if len(rep.Failed) > 0 {
+			r.Status = "failed"
+			r.failing = append(r.failing, &Discharged{&Obligation{Name: n, Func: rep.Fn, Label: "analysed", Kind: "tool", Goal: False, Where: strings.Join(rep.Failed, "; ")}, &SolveResult{Status: "tool", Output: strings.Join(rep.Failed, "; ")}})
+		}
+		byName[n] = r
+		order = append(order, n)
+	}
 	for _, o := range all {
 		if o.Kind == "tool" {
 			r := get(o)
